@@ -1,4 +1,4 @@
-from runner import CbmcUnit, Entry
+from runner import CbmcUnit, Entry, PathUnit, PathEntry
 
 
 def units(tier):
@@ -18,4 +18,12 @@ def units(tier):
         assumptions=["interleavings at the RKCOMMON_VERIF scheduling points of the loop thread with complete controller operations; schedules where the controller is suspended mid-operation "
                      "(points D-G) while the loop thread runs, weak memory, and the TBB execution of a TASK-launched loop are outside", "condition_variable: wake-up only by notify (no spurious wake-ups)",
                      "the loop thread performs at most NBODY body invocations (unwinding assumption, not assertion)"],
-        stubs=["std::thread::_M_start_thread/join, condition_variable::wait/notify_one, pthread mutex: vp/models/models_more.c", "sched_yield in stop(): blocks (path ends) while the loop thread is suspended"])]
+        stubs=["std::thread::_M_start_thread/join, condition_variable::wait/notify_one, pthread mutex: vp/models/models_more.c", "sched_yield in stop(): blocks (path ends) while the loop thread is suspended"]),
+        PathUnit("asyncloop_path", "harness/C03_asyncloop_path.cpp", [
+            PathEntry("vp_main_loop_thread", wall=900 if q else 6000, max_steps=(100000000 if q else 2000000000), max_paths=(200000 if q else 3000000),
+                      desc="THREAD launch, real std::thread/mutex/condition_variable code on the path engine's thread model: [stop] start, wait for a body, stop, [start again], destroy - under EVERY schedule with <= %d preemptions "
+                           "(also with the controller suspended mid-operation): body runs within bounded time after start() (no lost wake-up), nothing in progress or beginning after stop() returned, destructor joins" % (2 if q else 3))],
+            defines=["VP_PATH", "PREEMPT=%d" % (2 if q else 3)], native_defines=["VP_NATIVE_BUILD"], validate=False, replay_repeat=8,
+            assumptions=["sequentially consistent interleavings; preemptions placed before synchronisation calls, atomic stores and read-modify-writes, condition waits; no spurious wake-ups",
+                         "TASK launch (runs on the TBB arena) is outside"],
+            stubs=["pthread mutex / condition_variable wait+notify / std::thread start+join: vp/llpath.py models"])]
